@@ -7,7 +7,8 @@ def run(ctx):
     T = codec.tok_harness
     # quick: every single deviation (one symbolic token at each of three positions; each mandatory token missing) and a two-element group
     for pres in (1, 2, 4): T(ctx, 'C04_tok_x%d' % pres, pres=pres, defs=defs)
-    for drop in range(1, 7): T(ctx, 'C04_drop%d' % drop, pres=0, drop=drop, defs=defs)
+    T(ctx, 'C04_drop', pres=0, drop=0, defs=defs, extra_defs=['DROPALL'])        # each of the six mandatory tokens left out (case split, one concrete run each)
+    for drop in range(1, 7): T(ctx, 'C04_drop%d' % drop, pres=0, drop=drop, defs=defs, tier='thorough')
     T(ctx, 'C04_group2', pres=0, ng=2, gpres=3, defs=defs, extra_defs=['GMENUMASK=0x1804'])     # group slots: 372, 385, 141
     T(ctx, 'C04_group2_full', pres=0, ng=2, gpres=3, defs=defs, tier='thorough', timeout=2400)
     # thorough: pairs and triples of symbolic tokens, a dropped mandatory token next to a symbolic one, three group tokens, and the real byte tokenizer
@@ -17,7 +18,7 @@ def run(ctx):
     T(ctx, 'C04_group2_x4', pres=4, ng=2, gpres=3, defs=defs, tier='thorough', timeout=2400)
     T(ctx, 'C04_bytes_x2', pres=2, defs=defs, tokcut=False, tier='thorough', timeout=2400)
     ctx.assumptions += codec.DECODE_ASSUMPTIONS
-    ctx.solve(jobs=4)
+    ctx.solve(jobs=codec.JOBS)
     ctx.handle_failures(codec.replay, kf)
     announce_known(ctx, kf, codec.replay)
     return ctx.finish()
